@@ -4,7 +4,7 @@ import Pyunicorn.Lemmas.WhileSafe
 import Pyunicorn.Lemmas.Binary64
 import Pyunicorn.Lemmas.LineIdx
 import Pyunicorn.Lemmas.NsiIdx
-import Pyunicorn.Model.AccessMi
+import Pyunicorn.Lemmas.AccessMi
 import Pyunicorn.Generated.StructC20
 import Pyunicorn.Generated.StructC20Pyx
 import Pyunicorn.Generated.StructC20Py
@@ -2155,4 +2155,45 @@ theorem miCallX_witness :
 example : (miRangeX mi_steps normalize_steps sqrtX 2 2 [[.fin 0, .pinf], [.fin 2, .fin 1]])
     = some ([[.fin (-1), .fin 1], [.fin 0, .fin 0]], .fin (-1), .fin 1, some (.fin (1/2))) := by
   decide +kernel
+/-- the statements of `Data.normalize_time_series_array` in the current source are the three the
+lemmas of `Lemmas/AccessMi.lean` speak of (static: an edited statement breaks it) -/
+theorem normalize_steps_generated : normalize_steps = normalizeSteps3 := by decide
+
+/-- what the statements of the current worker compute before the range is taken: the normalised
+array, transposed, with shape `(N, T)` -/
+theorem miPrepX_generated (sq : XR → XR) (T N : Nat) (a : XData) :
+    miPrepX mi_steps normalize_steps sq T N a
+      = some ⟨tabX N T fun i k =>
+          (zeroNanX T N (scaleX sq T N (centreX T N (tabX T N a.at)))).at k i, N, T⟩ := rfl
+
+/-- **Round 5's "argued" claim as a theorem: a column (node) of the anomaly that holds `+inf`, `-inf`
+or NaN at any time reaches the range computation and the kernel as a row of zeros**, for every shape
+and every square root that maps NaN to NaN.  (So infinities in the *input* never reach the kernel;
+`miCallX_rejects_or_safe` does not need this — it also covers infinities *produced* by the
+normalisation when the mean of squares underflows.) -/
+theorem miPrepX_nonfinite_column_zero (sq : XR → XR) (hsq : sq .nan = .nan) (T N : Nat) (a : XData)
+    {j : Nat} (hj : j < N) (h : ∃ t, t < T ∧ (a.at t j).isFin = false) {t : Nat} (ht : t < T)
+    (p : Shaped) (hp : miPrepX mi_steps normalize_steps sq T N a = some p) :
+    p.rows = N ∧ p.cols = T ∧ p.d.at j t = .fin 0 := by
+  rw [miPrepX_generated] at hp
+  cases hp
+  refine ⟨rfl, rfl, ?_⟩
+  show (tabX N T _).at j t = _
+  rw [tabX_at _ _ _ hj ht]
+  apply normalize_nonfinite_column sq hsq T N _ hj _ ht
+  obtain ⟨t0, ht0, hf⟩ := h
+  exact ⟨t0, ht0, by rw [tabX_at _ _ _ ht0 hj]; exact hf⟩
+
+/-- no NaN reaches the range computation (the last statement of the normalisation) -/
+theorem miPrepX_no_nan (sq : XR → XR) (T N : Nat) (a : XData) {j t : Nat} (hj : j < N) (ht : t < T)
+    (p : Shaped) (hp : miPrepX mi_steps normalize_steps sq T N a = some p) :
+    (p.d.at j t).isNan = false := by
+  rw [miPrepX_generated] at hp
+  cases hp
+  show ((tabX N T _).at j t).isNan = false
+  rw [tabX_at _ _ _ hj ht]
+  exact zeroNanX_no_nan T N _ ht hj
+
+example : ∃ p, miPrepX mi_steps normalize_steps sqrtX 2 2 [[.fin 0, .pinf], [.fin 2, .fin 1]] = some p
+    ∧ p.d = [[.fin (-1), .fin 1], [.fin 0, .fin 0]] := ⟨_, rfl, by decide +kernel⟩
 end Pyunicorn.Access
